@@ -4,7 +4,10 @@ from props.common import bj
 LEVEL = 'other'
 CONTRACT_MODULES = []
 DEDUCTIVE = []
-EXPLANATION = 'bounded stand-in: snapshots before/after validation, repeatability, registry of default rules unchanged'
+EXPLANATION = ('frame obligations by transitive write-set analysis (no validation entry point or default rule writes a field of a validated '
+               'object; the default registry is private; no rule function keeps state between calls); bounded stand-in: snapshots '
+               'before/after validation, repeatability (also of every library rule called directly or registered as custom rule, '
+               'and in a second process), registry of default rules unchanged')
 
 def extra_obligations(prog):
     from props import frames
@@ -15,4 +18,5 @@ def bounded_jobs(tier, seed):
     return [
         bj('rcc.b_C19', 'run_observes', tier, seed),
         bj('rcc.b_C19', 'run_custom_private', tier, seed),
+        bj('rcc.b_C19', 'run_stateless', tier, seed),
     ]
